@@ -50,6 +50,24 @@ def per_packet_link(ctx, radio, always=None):
     return link, outcome
 
 
+def outage_link(ctx, radio, clock, choices_ms=(0, 2, 30, 60, None), only=None):
+    """every packet put on the air meets an outage of a symbolic duration (one of `choices_ms`, None = for ever) that starts with
+    its first attempt: attempts are acknowledged from then on.  `only(index)` restricts the outage to some packets (the others
+    are acknowledged at once)"""
+    first, pick = {}, {}
+
+    def acks(n, pkt):
+        if pkt.uid not in first:
+            first[pkt.uid] = clock.now
+            idx = len(first) - 1
+            pick[pkt.uid] = choices_ms[ctx.choice("outage_%d" % idx, len(choices_ms))] if (only is None or only(idx)) else 0
+        d = pick[pkt.uid]
+        return d is not None and clock.now - first[pkt.uid] >= d * 1_000_000
+    link = ScriptedLink(acks, by_packet=True)
+    radio.link = link
+    return link, pick
+
+
 def header_of(payload):
     p = blist(payload)
     return dict(from_node=p[0] | (p[1] << 8), to_node=p[2] | (p[3] << 8), frame_id=p[4] | (p[5] << 8),
